@@ -78,12 +78,12 @@ def _worker(item):
                         oc, why = check_program(calls, assign, split, version, dest, index)
                         res['counters']['programs'] += 1
                         res['outcomes'][oc] = res['outcomes'].get(oc, 0) + 1
-                        if oc in ('valid', 'invalid') and any(o[0] == 'C' for c in calls for o in c):
+                        if oc in ('valid', 'invalid') and any(o[0] in ('C', 'C*') for c in calls for o in c):
                             res['counters']['nontrivial'] += 1
                         if index:
                             res['counters']['with_index'] += 1
                         if why is not None and len(res['violations']) < 25:
-                            kinds = sorted(set(assign[o[3]] for c in calls for o in c if o[0] == 'C'))
+                            kinds = sorted(set(assign[o[3]] for c in calls for o in c if o[0] in ('C', 'C*')))
                             res['violations'].append({
                                 'case': {'seq': list(seq), 'assign': list(assign), 'split': split, 'version': version,
                                          'dest': dest, 'index': index},
